@@ -72,6 +72,11 @@ class Kernel(object):
         self.sched_log = []        # (step, chosen task name, n_runnable) for digests
         self.deadlocked = None
         self.by_thread = {}
+        self.timers = []           # absolute virtual times at which predicates may change
+
+    def add_timer(self, t):
+        if t > self.now:
+            self.timers.append(t)
 
     # ------------------------------------------------------------ tasks
     def run_main(self, fn, *args):
@@ -148,6 +153,8 @@ class Kernel(object):
 
     def _next_timer(self):
         ds = [t.deadline for t in self.tasks if t.state == BLOCKED and t.deadline is not None]
+        self.timers = [t for t in self.timers if t > self.now]
+        ds += self.timers
         return min(ds) if ds else None
 
     def _pick(self):
@@ -227,17 +234,22 @@ class Kernel(object):
 
     # ------------------------------------------------------------ API for primitives
     def me(self):
-        return self.current
+        return self._task_of_thread()
+
+    def me_task(self):
+        return self.by_thread.get(threading.get_ident())
 
     def is_dead(self):
         """true when the calling task has been killed (or the run is being torn
         down): its primitives must be silent no-ops"""
+        if self.shutdown:
+            return True          # the run is over: late finalisers must not touch anything
         me = self.by_thread.get(threading.get_ident())
         if me is None:
             return True          # e.g. a finaliser running in a foreign thread
         if me.is_main:
             return False
-        return me.state == DEAD or self.shutdown
+        return me.state == DEAD
 
     def _task_of_thread(self):
         return self.by_thread.get(threading.get_ident(), self.main)
